@@ -309,6 +309,10 @@ func choiceConsumedRule(c *Ctx, m *runnerModel, rule string) {
 				if callee := calleeOf(info, n); callee != nil && w.byObj[callee] == m.next {
 					return []string{"RECURSE"}
 				}
+			case *pseudo:
+				if n.kind == "SELFCALL" {
+					return []string{"RECURSE"}
+				}
 			}
 			return nil
 		},
